@@ -1,0 +1,24 @@
+//go:build verif
+
+package home
+
+import (
+	"github.com/AdguardTeam/AdGuardHome/internal/client"
+	"github.com/AdguardTeam/AdGuardHome/internal/querylog"
+)
+
+// This file is only compiled with the "verif" build tag.  It adds accessors
+// used by the external deterministic-simulation harness and changes nothing
+// in the shipped build.
+
+// VerifClientFuncs returns the real callbacks that [initDNS] hands to the
+// query log (FindClient) and to the statistics (ShouldCountClient), bound to
+// the given client storage and access checker.
+func VerifClientFuncs(
+	st *client.Storage,
+	chk BlockedClientChecker,
+) (find func(ids []string) (c *querylog.Client, err error), shouldCount func(ids []string) (y bool)) {
+	c := &clientsContainer{storage: st, clientChecker: chk}
+
+	return c.findMultiple, c.shouldCountClient
+}
